@@ -41,6 +41,45 @@ def contracts():
         doc={"one_entry_per_change_none_for_a_repeat": "C11: 'the name's manifest gains exactly one entry ... per registration that changes the current version "
                                                        "(different bytes or different source file name) and none for a repeat'"},
         assumptions=["variant: no '#mark' (spreadsheet sheet) and no s3 path"]))
+    # ---- add_named_file: what is registered is the file that was copied in, under its name, with the fingerprint of its bytes
+    FM = "csvpath/managers/files/file_manager.py"
+    CF["FileManager"] = {**CF.get("FileManager", {}), "g_home": "str", "g_hash": "str", "g_rpath": "str", "g_copied_from": "str", "g_copied_to": "str", "g_copies": "int",
+                         "registrar": "obj:FileRegistrar", "g_name_home": "str"}
+    CF["FileRegistrar"].update({"g_registered": "obj:FileMetadata", "g_register_calls": "int"})
+    CF["FileMetadata"].update({"named_file_name": "val", "file_path": "val", "file_name": "val", "archive_name": "val"})
+
+    def iface(target, types, ensures=None, modifies=None, returns="none", why=""):
+        cs.append(Contract(target=target, interface=True, types=types, ensures=ensures or {}, modifies=modifies or [], returns=returns, class_fields=CF, assumptions=[why]))
+    iface(f"{FM}::FileManager.assure_file_home", {"name": "val", "path": "val"}, returns="str", ensures={"h": "result == self.g_home and '#' not in result"},
+          why="assure_file_home(name, path) is inputs/named_files/<name>/<file name>, created if missing (no '#': plain csv variant)")
+    iface(f"{FM}::FileManager.named_file_home", {"name": "val"}, returns="str", ensures={"h": "result == self.g_name_home"}, why="named_file_home(name) is inputs/named_files/<name>")
+    iface(f"{FM}::FileManager._copy_in", {"path": "str", "home": "str"}, modifies=["self.g_copied_from", "self.g_copied_to", "self.g_copies"],
+          ensures={"logged": "self.g_copies == old(self.g_copies) + 1 and self.g_copied_from == path and self.g_copied_to == home"}, returns="val",
+          why="_copy_in(path, home) copies the source file's bytes into home (shutil.copy / s3 download: external; bounded in C11.bounded)")
+    iface(f"{FM}::FileManager._fingerprint", {"path": "str"}, returns="tuple[str,str]", ensures={"fp": "result[0] == self.g_rpath and result[1] == self.g_hash"},
+          why="_fingerprint(home) renames the copied file to <sha256 of its bytes>.<ext> and returns (that path, that hash) (hashlib: external; bounded in C11.bounded)")
+    iface("csvpath/csvpaths.py::CsvPaths.config", {}, returns="obj:Config", why="CsvPaths.config is the instance's Config")
+    iface("csvpath/util/config.py::Config.archive_name", {}, returns="val", why="Config.archive_name is the last segment of the archive path")
+    iface(f"{FR}::FileRegistrar.register_complete", {"mdata": "obj:FileMetadata"}, modifies=["self.g_registered", "self.g_register_calls"],
+          ensures={"kept": "self.g_registered is mdata", "n": "self.g_register_calls == old(self.g_register_calls) + 1"}, returns="none",
+          why="FileRegistrar.register_complete(mdata) is under its own contract above (one manifest entry per change)")
+    cs[-1].variant = "as_a_callee"
+    reg = "self.registrar.g_registered"
+    cs.append(Contract(
+        target=f"{FM}::FileManager.add_named_file", variant="plain_path",
+        types={"name": "str", "path": "str", "self.registrar": "obj:FileRegistrar", "self._csvpaths": "obj:CsvPaths", "self.csvpaths": "obj:CsvPaths"},
+        requires=["'#' not in path"],
+        modifies=["self.g_copied_from", "self.g_copied_to", "self.g_copies", "self.registrar.g_registered", "self.registrar.g_register_calls"],
+        ensures={"copies_the_given_file_into_the_names_home_once": "self.g_copies == old(self.g_copies) + 1 and self.g_copied_from == path and self.g_copied_to == self.g_home",
+                 "registers_once": "self.registrar.g_register_calls == old(self.registrar.g_register_calls) + 1",
+                 "registered_under_the_given_name": f"same({reg}.named_file_name, name) and {reg}.origin_path == path and {reg}.name_home == self.g_name_home",
+                 "registered_with_the_fingerprint_of_the_copied_bytes": f"{reg}.fingerprint == self.g_hash and same({reg}.file_path, self.g_rpath) and {reg}.file_home == self.g_home",
+                 "no_sheet_mark": f"{reg}.mark is None"},
+        stub_new=["FileMetadata"], callee_variants={"FileRegistrar.register_complete": "as_a_callee"},
+        class_fields=CF, macros=MACROS, returns="none", native=NATIVE,
+        property_clauses={k: "C11" for k in ("copies_the_given_file_into_the_names_home_once", "registers_once", "registered_under_the_given_name",
+                                             "registered_with_the_fingerprint_of_the_copied_bytes")},
+        doc={"registered_with_the_fingerprint_of_the_copied_bytes": "C11: 'the stored file is named by the sha256 of its bytes ... the manifest ... carrying that fingerprint'"}))
     return cs
 
 
